@@ -12,6 +12,7 @@ from . import c11_world as W
 _PROBE_NAMES = sorted(D.PROBES)
 _ATOM_NAMES = sorted(D.ATOM_PROBES)
 BLOCK_PLACEMENTS = ['top', 'quote', 'list', 'loose_list', 'quote_in_list', 'list_in_quote', 'after_para']
+PARA_THEN = ['para_then_table', 'para_then_heading', 'para_then_fence', 'para_then_html', 'para_then_list', 'para_then_quote']
 SPAN_PLACEMENTS = D.PLACEMENTS
 RECLIMITS = [60, 100, 160]
 
@@ -64,8 +65,10 @@ def fault_variants(tier, seed):
     i = 0
     # F1: block-token faults at every index of the block list
     for tok in W.FAULT_BLOCK:
-        for placement in BLOCK_PLACEMENTS:
+        for placement in BLOCK_PLACEMENTS + PARA_THEN:
             if tok != 'FaultBlockInterrupt' and placement == 'after_para':
+                continue
+            if tok == 'FaultBlockInterrupt' and placement in PARA_THEN:
                 continue
             doc = D.fault_doc(tok, placement)
             for rid in rids:
@@ -511,7 +514,8 @@ def _random_fault(rng, rid, opts, kinds):
     nb, ns = _extras(rid, opts)
     if kind == 'F1':
         tok = W.FAULT_BLOCK[rng.randrange(len(W.FAULT_BLOCK))]
-        placement = BLOCK_PLACEMENTS[rng.randrange(len(BLOCK_PLACEMENTS))]
+        pls = BLOCK_PLACEMENTS + (PARA_THEN if tok != 'FaultBlockInterrupt' else [])
+        placement = pls[rng.randrange(len(pls))]
         v = {'kind': kind, 'tok': tok, 'pos': rng.randint(0, nb), 'doc': D.fault_doc(tok, placement)}
     elif kind == 'F2':
         tok = W.FAULT_SPAN[rng.randrange(len(W.FAULT_SPAN))]
